@@ -143,6 +143,11 @@ where
         // for the invalidated value.
         let mut cache_opt = self.cache.write().await;
 
+        // Drop the cached value before contacting the owner: while serving a write request
+        // the owner waits for every copy of the current value to be dropped and does not
+        // answer read requests, so holding on to a copy here can deadlock.
+        *cache_opt = None;
+
         // Request and receive current value.
         let (value_tx, value_rx) = oneshot::channel();
         let _ = self.req_tx.send(ReadRequest { value_tx }).await;
